@@ -1068,6 +1068,10 @@ class MyPyAstVisitor:
 
         # Iterable mypy types
         if isinstance(mypy_type, mp_types.TupleType):
+            fallback = mypy_type.partial_fallback.type
+            if fallback.fullname != "builtins.tuple":
+                # An instance of a NamedTuple class is a tuple type with the class as fallback
+                return sds_types.NamedType(name=fallback.name, qname=fallback.fullname)
             return sds_types.TupleType(types=[self.mypy_type_to_abstract_type(item) for item in mypy_type.items])
         elif isinstance(mypy_type, mp_types.UnionType):
             # Unions that are members of a union through a type alias are not flattened by Mypy
